@@ -82,7 +82,7 @@ def pp():
     return pypose
 
 
-EPS = common.EPS
+EPS = dict(common.EPS, float16=2.0 ** -10, bfloat16=2.0 ** -7)
 KINDS = {"constant": 0, "adaptive": 1, "trust": 2}
 VERDICTS = ["very", "ok", "bad"]
 KCODE = {"huber": 1, "pseudohuber": 2, "cauchy": 3, "shift": 4}
@@ -266,7 +266,7 @@ def allowed_verdicts(h, last, loss, J, D, R, dtype):
     # torch compares a tensor with the Python-float threshold after converting the threshold to the tensor's dtype
     tdt = getattr(torch, dtype)
     hr, lr = float(torch.tensor(h["high"], dtype=tdt)), float(torch.tensor(h["low"], dtype=tdt))
-    out.add(classify(qx, Fraction(hr), Fraction(lr)))
+    out.add(classify(qx, cfr(hr), cfr(lr)))
     if math.isfinite(qf) and Fraction(qf) == qx:
         return out, qx
     cond = (mag / abs(den)) if den != 0 else Fraction(1)
@@ -320,7 +320,10 @@ class RecStrategy:
         return getattr(self.inner, name)
 
     def update(self, pg, last, loss, J, D, R, *args, **kwargs):
-        ev = {"pg_before": pg_state(pg), "hyper": pg_hyper(pg, self.inner), "last": last.detach().clone(),
+        hyp = pg_hyper(pg, self.inner)
+        if getattr(self, "doc_hyper", None):
+            hyp.update(self.doc_hyper)        # documented defaults, not values read back from the (default-constructed) object
+        ev = {"pg_before": pg_state(pg), "hyper": hyp, "last": last.detach().clone(),
               "loss": loss.detach().clone(), "J": J.detach().clone(), "D": D.detach().clone(), "R": R.detach().clone(),
               "params": [raw(p) for p in self.module.parameters()] if self.module is not None else None,
               "refs": (J, D, R, last, loss), "pg_full_before": {k: v for k, v in pg.items() if k != "params"}}
@@ -341,6 +344,7 @@ _SUBCLS = {}
 def rec_strategy_subclass(inner, flavour):
     """the recorder as a USER SUBCLASS of the library strategy class of `inner` (so that isinstance(strategy, Adaptive) holds
     for what LM receives). flavour 'delegate': update records and then applies the library rule of its base class;
+    flavour 'props': like 'delegate', and `min` / `max` / `down` are properties of the subclass, not instance attributes;
     flavour 'own': update applies the user's own law (damping ×3 after a worse trial, ÷3 otherwise) — LM must call exactly
     this method, once per completed trial, and nothing else may touch pg."""
     base = type(inner)
@@ -354,8 +358,19 @@ def rec_strategy_subclass(inner, flavour):
                 pg["damping"] = pg["damping"] * 3.0 if bool(loss > last) else pg["damping"] / 3.0
             else:
                 base.update(self, pg, last=last, loss=loss, J=J, D=D, R=R)
-        _SUBCLS[key] = type("User" + base.__name__, (base,), {"update": update, "_apply": inner_update})
+        members = {"update": update, "_apply": inner_update}
+        if flavour == "props":
+            # the subclass exposes min / max / down as PROPERTIES (computed from private fields) instead of attributes
+            for nm_ in ("min", "max", "down"):
+                members[nm_] = property(lambda self, _n=nm_: self.__dict__["_p_" + _n])
+        _SUBCLS[key] = type("User" + base.__name__, (base,), members)
     obj = _copy_module.copy(inner)
+    if flavour == "props":
+        for nm_ in ("min", "max", "down"):
+            if nm_ in obj.__dict__:
+                obj.__dict__["_p_" + nm_] = obj.__dict__.pop(nm_)
+            else:
+                obj.__dict__["_p_" + nm_] = 1.0
     obj.__class__ = _SUBCLS[key]
     obj.log, obj.module, obj.flavour = [], None, flavour
     obj.inner = _InnerProxy(obj)
@@ -576,6 +591,22 @@ def build_problem(scn):
             def forward(self, inp, c):
                 return (self.pose @ inp).Log().tensor(), (self.w * self.w * c - 1).view(1, 3)
         return Mixed(), (inp, c.to(dt)), None
+    if fam == "alias":
+        # a model whose outputs ARE its input (a view) and its parameter (a view): the library must not do in-place
+        # arithmetic on what the callback returned
+        n = scn["n"]
+        theta0 = _rand(g, n) * scn["start"] + 1.0
+        x = _rand(g, 1, n)
+        b = _rand(g, 1, n) * 0.1
+
+        class Alias(nn.Module):
+            def __init__(self):
+                super().__init__()
+                self.t = nn.Parameter(theta0.to(dt))
+
+            def forward(self, x):
+                return x.view(1, n), self.t.view(1, n)
+        return Alias(), x.to(dt), [None, b.to(dt)]
     if fam == "script1d":
         th0 = scn["start"]
 
@@ -650,7 +681,7 @@ def residuals_of(module, inp, target):
     outs = list(out) if isinstance(out, (tuple, list)) else [out]
     if target is not None:
         tg = list(target) if isinstance(target, (tuple, list)) else [target]
-        outs = [o - t for o, t in zip(outs, tg)]
+        outs = [o if t is None else o - t for o, t in zip(outs, tg)]
     return outs
 
 
@@ -668,7 +699,7 @@ def loss_and_scale(outs, kspec):
     total, scale, xmax = 0.0, 0.0, 0.0
     for i, r in enumerate(outs):
         kk = ks[i] if len(ks) > 1 else ks[0]
-        x = r.double().square().sum(-1)
+        x = r.detach().double().square().sum(-1)
         total += float(rho(kk, x).sum())
         scale += float(rho_scale(kk, x).sum())
         xmax = max(xmax, float(x.max()) if x.numel() else 0.0)
@@ -867,7 +898,7 @@ def optimizer_attrs(opt, is_lm, kind=None) -> dict:
     return d
 
 
-ARGNAME = {"lin": "A", "cubic": "x", "rosen": "c", "expfit": "tt", "atan": "c", "so3": "inp", "se3": "inp", "script1d": "x"}
+ARGNAME = {"alias": "x", "lin": "A", "cubic": "x", "rosen": "c", "expfit": "tt", "atan": "c", "so3": "inp", "se3": "inp", "script1d": "x"}
 
 
 def make_weight(scn, module, inp, dt):
@@ -930,6 +961,10 @@ def scn_plan(scn):
     return plan
 
 
+REL_WORSE = {"a": 1e-12, "b": 1e-10, "c": 1e-8, "d": 1e-7, "e": 1e-6, "f": 1e-5}
+REL_BETTER = {"A": 1e-12, "C": 1e-8, "F": 1e-5}
+
+
 def script1d_plan(scn, module):
     """scripted 1-D: per call a string over W (worse), B (better), E (equal loss), X (raise)"""
     scripts = scn["scripts"]
@@ -946,6 +981,11 @@ def script1d_plan(scn, module):
                 t = th * 2 if th != 0 else 1.0
             elif c == "E":
                 t = -th
+            elif c in REL_WORSE or c in REL_BETTER:
+                # loss θ² worse / better by a relative amount between round-off and "visible": a hidden isclose-style
+                # tolerance in the accept test lives exactly there
+                rr = REL_WORSE.get(c) or -REL_BETTER[c]
+                t = th * math.sqrt(1.0 + rr)
             elif c in "UL":
                 # loss θ² a couple of ulps worse (U) / better (L) than the current one: the accept test has no tolerance
                 tt = torch.tensor(abs(th), dtype=A.dtype)
@@ -1049,6 +1089,52 @@ def _scenario_steps(ctx: Ctx, scn, collect, shared_inner=None, sink=None):
         if scn.get("sub_solver") and scn["solver"] in ("cholesky", "pinv", "lstsq"):
             solver_obj = rec_solver_subclass(solver_, scn["solver"])
         solver_ = solver_obj
+        omit = set(scn.get("defaults") or [])
+        if omit:
+            # optional arguments OMITTED: the library builds its own default objects; the recorders are wrapped around those
+            # objects afterwards, and everything is compared with the DOCUMENTED defaults
+            kw = {}
+            if "solver" not in omit:
+                kw["solver"] = solver_
+            if is_lm and "strategy" not in omit:
+                kw["strategy"] = RecStrategy(inner_)
+            if "kernel" not in omit:
+                kw["kernel"] = kern
+            if is_lm and "reject" not in omit:
+                kw["reject"] = scn["reject"]
+            opt_ = (P.optim.LM if is_lm else P.optim.GN)(mod, **kw)
+            bad = []
+            if "solver" in omit:
+                want_cls = P.optim.solver.Cholesky if is_lm else P.optim.solver.PINV
+                if type(opt_.solver) is not want_cls:
+                    bad.append(f"default solver is {type(opt_.solver).__name__}")
+                rec_.inner = opt_.solver
+                opt_.solver = rec_
+            strat_ = None
+            if is_lm:
+                if "strategy" in omit:
+                    if type(opt_.strategy) is not P.optim.strategy.TrustRegion:
+                        bad.append(f"default strategy is {type(opt_.strategy).__name__}")
+                    doc = {"radius": 1e6, "damping": 1e-6, "high": 0.5, "low": 1e-3, "up": 2.0, "down": 0.5, "factor": 0.5,
+                           "min": 1e-6, "max": 1e32}
+                    got = {k_: opt_.param_groups[0].get(k_) for k_ in doc}
+                    if got != doc:
+                        bad.append(f"param group {got} instead of the documented defaults {doc}")
+                    strat_ = RecStrategy(opt_.strategy)
+                    strat_.doc_hyper = {"down0": 0.5, "smin": 1e-6, "smax": 1e16}
+                    opt_.strategy = strat_
+                else:
+                    strat_ = kw["strategy"]
+                strat_.module = mod
+                if "reject" in omit and opt_.reject != 16:
+                    bad.append(f"default reject is {opt_.reject}")
+            if "kernel" in omit and not (len(opt_.model.kernel) == 1 and type(opt_.model.kernel[0]).__name__ == "Trivial"):
+                bad.append("default kernel is not [Trivial()]")
+            if bad:
+                ctx.fail(scn, "defaults: an optimizer built with omitted arguments does not have the documented defaults: " + "; ".join(bad))
+            ctx.count("class.defaults-omitted." + "+".join(sorted(omit)))
+            rec_.opt = opt_
+            return opt_, strat_
         if is_lm:
             strat_ = rec_strategy_subclass(inner_, scn["sub_strategy"]) if scn.get("sub_strategy") else RecStrategy(inner_)
             strat_.module = mod
@@ -1913,12 +1999,15 @@ def run_upd_stream(ctx: Ctx, n, rng=None):
     reqs = []
     for i in range(n):
         spec = gen_strategy_spec(rng)
-        dtype = rng.choice(["float64", "float64", "float32"])
+        dtype = rng.choice(["float64", "float64", "float32", "float32", "float16", "bfloat16"])
         strat = make_strategy(spec)
         pg = dict(strat.defaults)
         place_damping(rng, spec, pg, strat)
         exact = rng.random() < 0.3
         last, loss, J, D, R, region = engineered_quality_case(rng, spec, dtype, exact)
+        if not all_finite(last, loss, J, D, R) or not all_finite(J @ D, (J @ D).mT @ (2 * R + J @ D)):
+            # narrow dtypes overflow quickly: fall back to the small dyadic data
+            last, loss, J, D, R, region = engineered_quality_case(rng, spec, dtype, True)
         rec = RecStrategy(strat)
         case = {"kind": "upd", "spec": spec, "pg": {k: float(v) for k, v in pg.items()}, "dtype": dtype,
                 "last": float(last), "loss": float(loss), "J": J.tolist(), "D": D.tolist(), "R": R.tolist()}
@@ -2122,7 +2211,7 @@ def run_loss_stream(ctx: Ctx, n, rng=None):
     items = []
     for i in range(n):
         nout = rng.choice([1, 1, 2, 3])
-        dtype = rng.choice(["float64", "float32"])
+        dtype = rng.choice(["float64", "float32", "float64", "float32", "float16", "bfloat16"])
         dt = getattr(torch, dtype)
         names = ["huber", "pseudohuber", "cauchy"]
         c = rng.random()
@@ -2149,6 +2238,14 @@ def run_loss_stream(ctx: Ctx, n, rng=None):
         want = common.reply_nums(rep)[0]
         got = it["got"]
         tol = 64 * EPS[it["case"]["dtype"]] * max(abs(float(want)), it["scale"], 1e-300)
+        if it["case"]["dtype"] in ("float16", "bfloat16"):
+            # gradual underflow of ‖r‖² in the narrow dtype: absolute spacing below the smallest normal number
+            tiny = float(torch.finfo(getattr(torch, it["case"]["dtype"])).tiny)
+            tol += 64 * EPS[it["case"]["dtype"]] * tiny * sum(int(math.prod(shp[:-1])) for shp in it["case"]["shapes"])
+        if not math.isfinite(got):
+            if not far(got, float(want), tol, it["case"]["dtype"]):
+                continue
+            got = math.copysign(FMAX, got) if math.isinf(got) else 0.0
         if abs(Fraction(got) - want) > Fraction(tol):
             ctx.disagree("loss", it["case"], f"RobustModel.loss = {got!r}, model robustLoss = {float(want)!r}")
             if abs(got - it["oracle"]) > tol:
@@ -2242,7 +2339,8 @@ def run_large_loss(ctx: Ctx, sizes, rng):
         for shp, v in zip(shapes, vals):
             if abs(v - want) > tol:
                 ctx.fail(case, f"robust-loss: {N} items as shape {shp}: RobustModel.loss = {v!r}, Σρ(‖r‖²) = {want!r}")
-        for a in (1, N // 2, N - 1):
+        cuts = {1, N // 2, N - 1} | {N - (N % (2 ** k_)) for k_ in (10, 12, 16, 18) if 0 < N % (2 ** k_) < N}
+        for a in sorted(cuts):
             if 0 < a < N:
                 parts = loss_of(x[:a]) + loss_of(x[a:])
                 if abs(parts - vals[0]) > tol:
@@ -2281,6 +2379,8 @@ def loss_case(ctx, case):
                 nrm = float(rows[r].norm())
                 tgt = ladder[int(torch.randint(0, len(ladder), (1,), generator=g))]
                 rows[r] = rows[r] * (tgt / nrm) if nrm > 0 else rows[r] * 0
+    if case["dtype"] in ("float16", "bfloat16"):
+        outs = [o.clamp(-2.0, 2.0) for o in outs]          # ‖r‖² / δ² must stay inside the narrow dtype's range
     outs = [o.to(dt) for o in outs]
 
     class Fixed(nn.Module):
@@ -2304,7 +2404,10 @@ def loss_case(ctx, case):
             kern = [kern]
         rm = (P.optim.LM(Fixed(), kernel=kern) if via == "lm" else P.optim.GN(Fixed(), kernel=kern)).model
     with torch.no_grad():
-        got = float(rm.loss(torch.zeros(1, dtype=dt), None))
+        res = rm.loss(torch.zeros(1, dtype=dt), None)
+        got = float(res)
+    if res.dtype != dt or res.dim() != 0:
+        ctx.fail(case, f"metadata: RobustModel.loss of {case['dtype']} residuals returned dtype {res.dtype}, shape {tuple(res.shape)}")
     oracle, scale, _ = loss_and_scale(outs, case["kernel"])
     return {"line": "c08.lossk " + kspec_wire(case["kernel"], case.get("wrap")) + " " + outputs_wire(outs), "case": case,
             "got": got, "oracle": oracle, "scale": scale}
@@ -2380,7 +2483,52 @@ def gen_scenario(rng, quick, opt="lm"):
     harden_scenario(rng, scn)
     harden2_scenario(rng, scn)
     harden4_scenario(rng, scn)
+    harden5_scenario(rng, scn)
     return scn
+
+
+DOC_TRUST = {"kind": "trust", "damping": 1e-6, "radius": 1e6, "high": 0.5, "low": 1e-3, "up": 2.0, "down": 0.5, "factor": 0.5,
+             "min": 1e-6, "max": 1e16}
+
+
+def as_defaults(scn, omit=("strategy", "solver", "kernel", "reject")):
+    """the scenario with optional constructor arguments OMITTED (and the documented defaults as the expectation)"""
+    scn = dict(scn)
+    is_lm = scn["opt"] == "lm"
+    scn["defaults"] = [o for o in omit if is_lm or o in ("solver", "kernel")]
+    if "strategy" in scn["defaults"]:
+        scn["strategy"] = dict(DOC_TRUST)
+    if "reject" in scn["defaults"]:
+        scn["reject"] = 16
+    if "solver" in scn["defaults"]:
+        scn["solver"] = "cholesky" if is_lm else "pinv"
+    if "kernel" in scn["defaults"]:
+        scn["kernel"] = None
+    scn["lm_min"], scn["lm_max"] = 1e-6, 1e32
+    for k in ("weight", "corrector", "kernel_wrap", "ctor_style", "sub_strategy", "sub_solver", "pg_edits", "reject_edits",
+              "vectorize", "copy_at", "copy_what"):
+        scn.pop(k, None)
+    return scn
+
+
+def harden5_scenario(rng, scn):
+    """arguments omitted (library-built default objects), models whose outputs alias input / parameter, strategy subclasses
+    with properties"""
+    if rng.random() < 0.12:
+        new = as_defaults(scn, rng.choice([("strategy", "solver", "kernel", "reject"), ("strategy",), ("solver", "kernel"),
+                                           ("strategy", "reject")]))
+        scn.clear()
+        scn.update(new)
+        return
+    if scn["opt"] == "lm" and scn["strategy"]["kind"] != "constant" and "sub_strategy" not in scn and rng.random() < 0.1:
+        scn["sub_strategy"] = "props"
+    if rng.random() < 0.06:
+        scn["family"] = "alias"
+        scn["n"] = rng.choice([1, 2, 3])
+        for k in ("weight", "scalar_input", "input_container", "fold_target", "frozen", "out3d"):
+            scn.pop(k, None)
+        if scn.get("kernel") is not None and not isinstance(scn["kernel"][0], str):
+            scn["kernel"] = scn["kernel"][:2]
 
 
 def harden4_scenario(rng, scn):
@@ -2572,7 +2720,7 @@ def run_opt_stream(ctx: Ctx, scns):
 
 
 TWIN_KEYS = ("call_style", "ctor_style", "input_container", "scalar_input", "grad_mode", "input_requires_grad", "kernel_wrap",
-             "copy_at", "copy_what", "forms", "grad_modes", "req_grads", "default_dtype", "sub_strategy", "sub_solver")
+             "copy_at", "copy_what", "forms", "grad_modes", "req_grads", "default_dtype", "sub_strategy", "sub_solver", "defaults")
 
 
 def run_twin(ctx: Ctx, scn, collect):
@@ -2647,6 +2795,30 @@ def run_pair(ctx: Ctx, scn, collect):
             f["what"] += " [another optimizer of an interleaved group" + (" sharing one strategy object]" if share else "]")
 
 
+def default_groups(rng, n, quick=True):
+    """groups of 2–3 optimizers all built with omitted arguments, interleaved"""
+    out = []
+    for _ in range(n):
+        members = []
+        for _m in range(rng.choice([2, 3])):
+            sc = gen_scenario(rng, quick, rng.choice(["lm", "lm", "gn"]))
+            for k in ("pair", "twin", "fwd_raise", "grad_modes", "req_grads", "default_dtype", "sub_model"):
+                sc.pop(k, None)
+            sc = as_defaults(sc)
+            sc["ncalls"] = max(2, min(sc["ncalls"], 4))
+            if sc["opt"] == "lm":
+                sc["bad"] = [rng.randint(0, 3) for _ in range(sc["ncalls"])]
+                if rng.random() < 0.6:
+                    sc["defaults"] = [d_ for d_ in sc["defaults"] if d_ != "reject"]
+                    sc["reject"] = rng.choice([0, 1, 2])
+            members.append(sc)
+        a = members[0]
+        a["pair"] = {"others": members[1:], "pattern": "".join(rng.choice("ABC"[:len(members)]) for _ in range(10)),
+                     "share_strategy": False}
+        out.append(a)
+    return out
+
+
 def pair_scenarios(rng, n, quick=True):
     out = []
     for _ in range(n):
@@ -2719,6 +2891,51 @@ def corpus_scenarios(quick=True):
     for fam in ("lin", "so3"):
         out.append({**base(fam, "constant", M=1), "opt": "gn", "ncalls": 5, "raise_at": [1, 3], "forms": ["strided", "plain", "slice"],
                     "kernel": ["huber", 1.0], "solver": "pinv", "good_scale": 0.5})
+    # ---- pass 5
+    dbase = as_defaults(base("atan", "trust", start=0.2, ncalls=4, raise_at=[2], bad=[1, 2, 0, 1], good_scale=0.5))
+    out.append(dbase)
+    # arguments omitted vs the same arguments spelled out: identical histories
+    ex = base("atan", "trust", start=0.2, ncalls=4, raise_at=[2], strategy=dict(DOC_TRUST), reject=16, solver="cholesky",
+              bad=[1, 2, 0, 1], good_scale=0.5)
+    ex["twin"] = {"defaults": ["strategy", "solver", "kernel", "reject"]}
+    out.append(ex)
+    # several default-built optimizers in one process, stepped interleaved, each against the documented defaults
+    for pattern in ("ABCABCABCABC", "AAABBBCCCABC"):
+        # engineered rejections so that the optimizers' down-factors / dampings differ while they are interleaved
+        a = as_defaults(base("atan", "trust", start=0.2, ncalls=4, bad=[2, 0, 3, 1], good_scale=0.5))
+        b_ = as_defaults(base("rosen", "trust", start=0.5, ncalls=4, fam_seed=7, bad=[0, 3, 0, 2], good_scale=0.5))
+        c_ = as_defaults(base("cubic", "trust", n=2, M=1, start=0.5, ncalls=4, fam_seed=8, dtype="float32", bad=[1, 1, 2, 0],
+                              good_scale=0.5))
+        a["pair"] = {"others": [b_, c_], "pattern": pattern, "share_strategy": False}
+        out.append(a)
+    # calls that END in the unsuccessful state (rejections exhausted / solver raising after a rejection), so that the strategy
+    # state differs between the optimizers at the moment the other one is stepped
+    for pattern in ("ABABABAB", "AABBABBA"):
+        # Newton steps on atan from |θ| ≈ 3 overshoot: genuinely "unsuccessful" trials (positive predicted decrease, worse
+        # loss) shrink radius and down-factor; with reject = 1 / 2 the calls end in that state
+        a = as_defaults(base("atan", "trust", n=2, start=0.2, reject=1, ncalls=5, fam_seed=21), omit=("strategy", "solver", "kernel"))
+        b_ = as_defaults(base("atan", "trust", n=1, start=0.3, reject=2, ncalls=5, fam_seed=22, raise_ct=[[1, 1]]),
+                         omit=("strategy", "solver", "kernel"))
+        a["pair"] = {"others": [b_], "pattern": pattern, "share_strategy": False}
+        out.append(a)
+    g1 = as_defaults({**base("lin", "constant", M=2), "opt": "gn", "ncalls": 3, "good_scale": 0.5})
+    g2 = as_defaults({**base("so3", "constant", M=2, start=0.5, fam_seed=3), "opt": "gn", "ncalls": 3, "good_scale": 0.5})
+    g1["pair"] = {"others": [g2], "pattern": "ABABAB", "share_strategy": False}
+    out.append(g1)
+    for kind in ("constant", "adaptive", "trust"):
+        # outputs that alias the input and the parameter
+        out.append(base("alias", kind, n=3, kernel=None, bad=[1, 0, 2, 0], good_scale=0.5, forms=["plain", "strided", "slice"]))
+        out.append(base("alias", kind, n=2, kernel=[["huber", 0.5], ["cauchy", 1.0]], bad=[0, 1, 0, 1], good_scale=0.5, raise_at=[1]))
+        out.append({**base("alias", kind, n=2, kernel=["huber", 1.0]), "opt": "gn", "ncalls": 3, "good_scale": 0.5})
+        # strategy subclass with min / max / down as properties
+        if kind != "constant":
+            out.append(base("lin", kind, sub_strategy="props", bad=[1, 2, 0, 1], good_scale=0.3,
+                            strategy=dict(dflt[kind], min=1e-3, max=2e-2 if kind == "adaptive" else 4e3)))
+        # trial losses worse / better by 1e-12 … 1e-5 relative: no tolerance in the accept test
+        for ch in "abcdefACF":
+            out.append({"kind": "opt", "opt": "lm", "family": "script1d", "fam_seed": 0, "dtype": "float64", "reject": 2, "ncalls": 2,
+                        "scripts": [ch, "W" + ch], "start": 3.0, "lm_min": 1e-6, "lm_max": 1e32, "solver": "solve",
+                        "kernel": None, "strategy": dict(dflt[kind]), "n": 1, "M": 1, "d": 1})
     # ---- pass 4
     for kind in ("constant", "adaptive", "trust"):
         # user subclasses of library classes: strategy (library rule through the subclass / its own law), solver, kernel, model
@@ -2936,7 +3153,37 @@ def run_tie_updates(ctx: Ctx):
     settle_updates(ctx, reqs, "tie")
 
 
+_REPEAT = {}
+
+
+def repeat_scenarios():
+    dflt = {"kind": "trust", "damping": 1e-3, "radius": 1e3, "high": 0.5, "low": 1e-3, "up": 2.0, "down": 0.5, "factor": 0.5,
+            "min": 1e-6, "max": 1e16}
+    common_ = {"kind": "opt", "fam_seed": 4321, "reject": 3, "ncalls": 3, "n": 2, "M": 2, "d": 1, "logcond": 0, "ascale": 1.0,
+               "start": 0.5, "lm_min": 1e-6, "lm_max": 1e32, "solver": "cholesky", "vectorize": True, "bad": [1, 0, 2],
+               "bad_scale": -5.0, "good_scale": 0.5, "raise_at": [], "raise_ct": []}
+    return [{**common_, "opt": "lm", "family": "se3", "dtype": "float32", "kernel": ["huber", 1.0], "strategy": dict(dflt)},
+            {**common_, "opt": "lm", "family": "lin", "dtype": "float64", "kernel": None, "strategy": dict(dflt), "M": 1, "n": 1},
+            {**common_, "opt": "gn", "family": "so3", "dtype": "float64", "kernel": ["cauchy", 1.0], "solver": "pinv"}]
+
+
+def repeat_check(ctx: Ctx, first=False):
+    """the same calls at the very beginning and at the very end of the run (every other operation of the run in between:
+    other dtypes, single items and batches, GN and LM, Lie and Euclidean): bit-for-bit identical"""
+    for i, scn in enumerate(repeat_scenarios()):
+        sink = []
+        run_optimizer_scenario(ctx, scn, {"upd": [], "lm": [], "gn": [], "loss": []}, sink=sink)
+        key = [(o.get("ret"), [t.tolist() for t in o.get("params", [])]) for o in sink]
+        if first:
+            _REPEAT[i] = key
+        elif _REPEAT.get(i) is not None and _REPEAT[i] != key:
+            ctx.fail(scn, "repeat: the same history gives different values at the beginning and at the end of the process "
+                          "(state left behind by other calls)")
+    ctx.count("class.repeat-check")
+
+
 def run_corpus(ctx: Ctx):
+    repeat_check(ctx, first=True)
     import random
     rc = random.Random(0xC08C)
     run_upd_stream(ctx, 300, rc)
@@ -2944,8 +3191,8 @@ def run_corpus(ctx: Ctx):
     run_tie_updates(ctx)
     run_zero_cases(ctx)
     run_empty_kernel(ctx)
-    run_large_loss(ctx, [255, 257, 4097, 16385, 65537] if ctx.quick else
-                   [2 ** k + e_ for k in range(6, 17) for e_ in (-1, 0, 1)] + [100003, 131073], rc)
+    run_large_loss(ctx, [255, 257, 4097, 16385, 65537, 2 ** 17 + 37] if ctx.quick else
+                   [2 ** k + e_ for k in range(6, 17) for e_ in (-1, 0, 1)] + [100003, 131073, 2 ** 18 + 1, 2 ** 18 + 37, 2 ** 20 + 1], rc)
     run_hist_stream(ctx, 24, rc)
     run_edithist_stream(ctx, 20, rc)
     run_loss_stream(ctx, 40, rc)
@@ -2980,7 +3227,9 @@ def run(ctx: Ctx):
     scns += [gen_scenario(rng, ctx.quick, "gn") for _ in range(ctx.pick(25, 200))]
     scns += pair_scenarios(rng, ctx.pick(8, 80), ctx.quick)
     scns += twin_scenarios(rng, ctx.pick(16, 250), ctx.quick)
+    scns += default_groups(rng, ctx.pick(4, 40), ctx.quick)
     run_opt_stream(ctx, scns)
+    repeat_check(ctx)
 
 
 def search(ctx: Ctx):
